@@ -243,7 +243,7 @@ NATIVE_TWINS = {
     'C07': ('c07_search_model', None,
             '16 positions (10 pseudo-random openings, mated, stalemated, single reply, in check, promotion next, en passant) x depths 0..3, fresh context: legal move / right error, every observable of the board unchanged, no panic'),
     'C08': ('c08_minimax_model', None,
-            '9 positions x depths 1..3 with a fresh context, 4 games x 8 plies at depth 3 with one reused context, and one context through 16 unrelated positions (values far apart in both directions, both sides to move) at depths 2 and 3: reported score == unpruned uncached reference minimax, returned move attains it'),
+            '9 positions x depths 1..3 with a fresh context, 4 games x 8 plies at depth 3 with one reused context, and one context through 16 unrelated positions (values far apart in both directions, both sides to move) at depths 2 and 3; 5 forced-mate games x depths 3, 4 with one reused context (the same mated position met at different remaining depths): reported score == unpruned uncached reference minimax, returned move attains it'),
     'C10': ('c10_perft_model', None,
             '7 positions (incl. a stalemated root, a checkmated root, mate in one) x depths 0..3 x rayon pools {1,2,3,4,7,16} x fresh/reused generator: count_positions == reference count (20, 420, 9322, 206603 from the start position), board unchanged'),
     'C11': ('c11_attack_geometry', None,
